@@ -284,7 +284,10 @@ fn bptree_enum_thorough() {
 // every file of the directory (except the LOCK file itself) byte-identical; after close() or drop the directory
 // opens again and holds the committed data.
 // Bound (stated): all sequences of <= `maxlen` steps from {open slot 0|1, close slot 0|1, drop slot 0|1,
-// commit through slot 0|1}; two handles on one directory. Other processes / process death are NOT exercised.
+// commit through slot 0|1}, plus all sequences of `maxlen` + 1 steps that begin with [open 0, close 0]; two handles
+// on one directory; a closed handle stays alive (closed, not dropped) until its slot is opened again or dropped,
+// so the second run of the shutdown path by Drop happens while another store may be live.
+// Other processes / process death are NOT exercised.
 fn dir_state(p: &std::path::Path, out: &mut Vec<(String, Vec<u8>)>) {
 	let mut ents: Vec<_> = std::fs::read_dir(p).map(|r| r.filter_map(|e| e.ok()).collect()).unwrap_or_default();
 	ents.sort_by_key(|e: &std::fs::DirEntry| e.file_name());
@@ -307,6 +310,9 @@ enum LOp {
 }
 
 async fn exclusive_enum_impl(maxlen: usize, name: &str) {
+	// a store that was CLOSED stays in its slot (closed, not yet dropped) until the slot is opened again or dropped:
+	// close() followed - possibly much later - by the drop of the handle is the normal life of a handle, and the
+	// drop runs the shutdown path a second time
 	let mut alpha = Vec::new();
 	for s in 0..2usize {
 		alpha.extend_from_slice(&[LOp::Open(s), LOp::Close(s), LOp::Drop(s), LOp::Commit(s)]);
@@ -315,7 +321,9 @@ async fn exclusive_enum_impl(maxlen: usize, name: &str) {
 	let mut nontrivial = 0u64;
 	let mut failures: Vec<String> = Vec::new();
 	let mut samples: Vec<String> = Vec::new();
-	for len in 1..=maxlen {
+	// all sequences of <= maxlen steps, plus all sequences of maxlen + 1 steps that begin with [open 0, close 0]
+	let mut all_ops: Vec<Vec<LOp>> = Vec::new();
+	for len in 1..=maxlen + 1 {
 		for code in 0..alpha.len().pow(len as u32) {
 			let mut ops = Vec::new();
 			let mut x = code;
@@ -323,19 +331,35 @@ async fn exclusive_enum_impl(maxlen: usize, name: &str) {
 				ops.push(alpha[x % alpha.len()]);
 				x /= alpha.len();
 			}
+			if len == maxlen + 1 && !(ops[0] == LOp::Open(0) && ops[1] == LOp::Close(0)) {
+				continue;
+			}
+			all_ops.push(ops);
+		}
+	}
+	{
+		for ops in all_ops {
+			let len = ops.len();
 			cases += 1;
 			let dir = tempdir::TempDir::new("verif_c19").unwrap();
-			let mut slots: [Option<crate::Tree>; 2] = [None, None];
+			// (store, closed)
+			let mut slots: [Option<(crate::Tree, bool)>; 2] = [None, None];
 			let mut model: std::collections::BTreeMap<Vec<u8>, Vec<u8>> = Default::default();
 			let mut bad: Option<String> = None;
 			let mut refused = false;
 			for (i, op) in ops.iter().enumerate() {
 				match *op {
 					LOp::Open(s) => {
-						if slots[s].is_some() {
-							continue;
+						match slots[s] {
+							Some((_, false)) => continue,
+							Some((_, true)) => {
+								// the closed handle goes out of scope now: its drop runs the shutdown path again
+								slots[s] = None;
+								tokio::time::sleep(std::time::Duration::from_millis(60)).await;
+							}
+							None => {}
 						}
-						let other_live = slots[1 - s].is_some();
+						let other_live = matches!(slots[1 - s], Some((_, false)));
 						let mut before = Vec::new();
 						if other_live {
 							dir_state(dir.path(), &mut before);
@@ -368,23 +392,28 @@ async fn exclusive_enum_impl(maxlen: usize, name: &str) {
 									}
 								}
 								drop(rd);
-								slots[s] = Some(t);
+								slots[s] = Some((t, false));
 							}
 							(Err(e), false) => bad = Some(format!("step {i}: open failed although no store is open on the directory: {e}")),
 						}
 					}
 					LOp::Close(s) => {
-						if let Some(t) = slots[s].take() {
-							if let Err(e) = t.close().await {
-								bad = Some(format!("step {i}: close failed: {e}"));
+						if let Some((t, closed)) = slots[s].as_mut() {
+							if !*closed {
+								if let Err(e) = t.close().await {
+									bad = Some(format!("step {i}: close failed: {e}"));
+								}
+								*closed = true;
 							}
 						}
 					}
 					LOp::Drop(s) => {
-						slots[s] = None;
+						if slots[s].take().is_some() {
+							tokio::time::sleep(std::time::Duration::from_millis(60)).await;
+						}
 					}
 					LOp::Commit(s) => {
-						if let Some(t) = slots[s].as_ref() {
+						if let Some((t, false)) = slots[s].as_ref() {
 							let k = format!("k{i}").into_bytes();
 							let mut tx = t.begin().unwrap();
 							tx.set_durability(crate::Durability::Immediate);
@@ -403,8 +432,10 @@ async fn exclusive_enum_impl(maxlen: usize, name: &str) {
 				}
 			}
 			for s in 0..2 {
-				if let Some(t) = slots[s].take() {
-					let _ = t.close().await;
+				if let Some((t, closed)) = slots[s].take() {
+					if !closed {
+						let _ = t.close().await;
+					}
 				}
 			}
 			if refused {
